@@ -42,6 +42,14 @@ def strategy(tier):
     def cases(draw):
         spec, focus = draw(gen.specs_and_focus(opts, 8))
         rec = draw(gen.recipes(spec, max_rows=30 if thorough else 12, reload_ok=False, focus=focus, inf_weights=True))
+        if any(s_["k"] in ("Fraction", "Select") and s_["q"].get("col") == "w" for _, s_ in walk_spec(spec)) and draw(st.integers(0, 2)) == 0:
+            # a weight-valued cut whose passing weight adds up to the total weight although numerator and denominator
+            # hold different data: cut values 2 and 0 in turn, unit weights, an even number of rows
+            fills = rec["fills"][: 2 * (len(rec["fills"]) // 2)]
+            for i_, rw in enumerate(fills):
+                rw[0] = dict(rw[0], w=2.0 if i_ % 2 == 0 else 0.0)
+                rw[1] = 1.0
+            rec["fills"] = fills
         return {"spec": spec, "state": rec, "f": draw(st.sampled_from((2.0, 0.5, 3.0)))}
 
     return cases()
@@ -167,6 +175,19 @@ def ndoc(h):
     return norm.norm(h.toJson(), names=False)
 
 
+def _same_state(a, b):
+    if a.keys() != b.keys():
+        return False
+    for k in a:
+        x, y = a[k], b[k]
+        if k == "mean" and isinstance(x, float) and isinstance(y, float):
+            if abs(x - y) > 1e-9 * max(1.0, abs(x), abs(y)):
+                return False
+        elif x != y:
+            return False
+    return True
+
+
 def has_nonfinite(doc):
     if isinstance(doc, dict):
         return any(has_nonfinite(v) for v in doc.values())
@@ -241,6 +262,11 @@ def check(case):  # noqa: PLR0915
             {"key": "variance", "entries": "inf"},
         )
     r = reloads["fromJson(dict)"]
+    # content read from the live attributes of h and of its reload (independent of the serialiser: a document that is
+    # stably wrong round-trips perfectly)
+    sh, sr = walk.attr_state(h), walk.attr_state(r)
+    bad = [(p_, sh[p_], sr.get(p_)) for p_ in sh if p_ in sr and not _same_state(sh[p_], sr[p_])]
+    require(not bad, "reload-content-differs", lambda: f"live attributes of the reload differ from the original's at {bad[0][0] or '<root>'}: {bad[0][1]} vs {bad[0][2]}")
     r2 = F.fromJson(r.toJson())
     require(h.toImmutable() == r, "immutable-not-equal", "h.toImmutable() != fromJson(h.toJson())")
     require(r == r2 and r2 == r and not (r != r2), "reload-not-equal", "reload != reload of reload")
